@@ -334,8 +334,10 @@ pub fn run_segment(bin: &Path, prop: &str, tier: Tier, seed: u64, k: u64, w: u64
             Ok(None) => break,
             Err(RecvTimeoutError::Timeout) => {
                 let cpu = cpu_seconds(child.id()).unwrap_or(0.0);
-                if cpu > hang_s * 30.0 || t0.elapsed().as_secs_f64() > hang_s * 60.0 {
+                if cpu > 7200.0 || t0.elapsed().as_secs_f64() > 4.0 * 3600.0 {
                     let _ = child.kill();
+                    let _ = child.wait();
+                    harness_error("replay of a worker-life segment did not end within its (very generous) time limit");
                 }
             }
             Err(_) => break,
@@ -642,7 +644,7 @@ pub fn locate_crash(a: &ParentArgs, profile: &str, i: u64) -> Option<(Value, Opt
             Ok(None) => break,
             Err(RecvTimeoutError::Timeout) => {
                 let cpu = cpu_seconds(child.id()).unwrap_or(0.0);
-                if cpu - cpu_at_activity > a.hang_s || last_activity.elapsed().as_secs_f64() > a.hang_s * 15.0 {
+                if cpu - cpu_at_activity > a.hang_s * 3.0 || last_activity.elapsed().as_secs_f64() > a.hang_s * 45.0 {
                     hang = true;
                     let _ = child.kill();
                 }
@@ -805,6 +807,11 @@ pub fn triage(a: &ParentArgs, sum: &mut RunSummary) -> Report {
             Some((check, sig2, hang2)) => {
                 let class = if hang || hang2 { "hang".to_string() } else { crash_class(sig2.as_deref().or(sig.as_deref()), None) };
                 sum.found.push(Found { profile, check, class, at: 0, detail: format!("process died in run {} (signal line: {:?})", i, sig), run_index: i });
+            }
+            None if hang => {
+                // Killed for burning a lot of CPU, but it does complete when given the time:
+                // slow, not hung. No verdict (running time is not a property result here).
+                *sum.stats.entry("slow_runs_killed_but_complete_when_rerun".into()).or_insert(0) += 1;
             }
             None => {
                 // The run completes on its own: the damage was done by an earlier run of the same
